@@ -197,7 +197,19 @@ pub fn run_c03(ctx: &Ctx, sink: &mut Sink) {
             let test = prune_test(&mut rng, &sc);
             let p = format!("vp:{}", hex(b"P:"));
             let v = format!("vp:{}", hex(b"V:"));
-            match rng.below(5) {
+            match rng.below(7) {
+                5 => {
+                    // ! ( ( TEST ) -prune ) -printf V:%p      (the whole expression is false on the pruned directory)
+                    toks.extend(["bang".into(), "lp".into(), "lp".into()]);
+                    toks.extend(test);
+                    toks.extend(["rp".into(), "prune".into(), "rp".into(), v.clone()]);
+                }
+                6 => {
+                    // ( TEST ) -prune , -type f -printf V:%p   (false on every directory)
+                    toks.push("lp".into());
+                    toks.extend(test);
+                    toks.extend(["rp".into(), "prune".into(), "comma".into(), "type:f".into(), v.clone()]);
+                }
                 0 => {
                     // ( TEST -printf P:%p -prune , -false ) -o -printf V:%p
                     toks.push("lp".into());
